@@ -101,7 +101,12 @@ class Evaluator(object):
 
     def __init__(self, record='rcfg', outputs=('jd_dict', 'agent_cfg'),
                  suffix='', inputs=None, input_names=(), list_names=(),
-                 record_fields=()):
+                 record_fields=(), helpers=None):
+        # helpers: {name: ast.FunctionDef} of the methods of the same class:
+        # `x = self.helper(...)` is inlined (path-forking), so an extract-method
+        # refactoring of the encoded function stays interpretable
+        self.helpers = helpers or {}
+        self.depth   = 0
         self.record_fields = set(record_fields)
         self.input_names = set(input_names)
         self.list_names  = set(list_names)
@@ -139,6 +144,9 @@ class Evaluator(object):
 
     def ev_List(self, n, st):
         return [self.ev(e, st) for e in n.elts]
+
+    def ev_Tuple(self, n, st):
+        return tuple(self.ev(e, st) for e in n.elts)
 
     def ev_UnaryOp(self, n, st):
         v = self.ev(n.operand, st)
@@ -287,7 +295,63 @@ class Evaluator(object):
             self.inputs[key] = z3.Int('in_' + key)
         return self.inputs[key]
 
+    def _helper_of(self, call):
+        f = call.func
+        if isinstance(f, ast.Attribute) and isinstance(f.value, ast.Name) \
+           and f.attr in self.helpers and self.depth < 3:
+            return self.helpers[f.attr]
+        return None
+
+    def call_helper(self, fdef, call, st):
+        """inline `self.helper(args)`: -> [(state, return value)]"""
+        params = [a.arg for a in fdef.args.args]
+        static = any(isinstance(d, ast.Name) and d.id == 'staticmethod'
+                     for d in fdef.decorator_list)
+        if not static and params and params[0] in ('self', 'cls'):
+            params = params[1:]
+        if fdef.args.vararg or fdef.args.kwarg or fdef.args.kwonlyargs:
+            raise NotImplementedError('helper signature')
+        vals = {}
+        for p, a in zip(params, call.args):
+            vals[p] = self.ev(a, st)
+        for kw in call.keywords:
+            if kw.arg is None or kw.arg not in params:
+                raise NotImplementedError('helper keyword')
+            vals[kw.arg] = self.ev(kw.value, st)
+        defaults = fdef.args.defaults
+        for p, d in zip(params[len(params) - len(defaults):], defaults):
+            if p not in vals:
+                vals[p] = self.ev(d, st)
+        if set(vals) != set(params):
+            raise NotImplementedError('helper arguments')
+        caller_env = st.env
+        st.env = dict(vals)
+        self.depth += 1
+        try:
+            outs = self.run(fdef.body, [st])
+        finally:
+            self.depth -= 1
+        res = []
+        for s in outs:
+            ret = getattr(s, 'retval', None)
+            s.env = dict(caller_env)
+            if s.status == 'return':
+                s.status = 'ok'
+                s.retval = None
+            elif s.status == 'ok':
+                ret = None                     # fell off the end
+            res.append((s, ret))
+        return res
+
     def assign(self, tgt, val, st):
+        if isinstance(tgt, (ast.Tuple, ast.List)):
+            if isinstance(val, (tuple, list)) and len(val) == len(tgt.elts):
+                for t, v in zip(tgt.elts, val):
+                    self.assign(t, v, st)
+            else:
+                for t in tgt.elts:
+                    self.assign(t, UNK, st)
+            return
         if isinstance(tgt, ast.Name):
             st.env[tgt.id] = val
         elif isinstance(tgt, ast.Attribute) and isinstance(tgt.value, ast.Name):
@@ -315,6 +379,17 @@ class Evaluator(object):
 
     def step(self, stmt, st):
         try:
+            if isinstance(stmt, ast.Assign) and len(stmt.targets) == 1 \
+               and isinstance(stmt.value, ast.Call) \
+               and self._helper_of(stmt.value) is not None:
+                out = []
+                for s, ret in self.call_helper(self._helper_of(stmt.value),
+                                               stmt.value, st):
+                    if s.status == 'ok':
+                        self.assign(stmt.targets[0],
+                                    UNK if ret is None else ret, s)
+                    out.append(s)
+                return out
             if isinstance(stmt, ast.Assign) and len(stmt.targets) == 1:
                 tgt = stmt.targets[0]
                 try:
@@ -378,6 +453,8 @@ class Evaluator(object):
                 st.status = 'raise'
                 return [st]
             if isinstance(stmt, ast.Return):
+                st.retval = None if stmt.value is None \
+                                 else self.ev(stmt.value, st)
                 st.status = 'return'
                 return [st]
             if isinstance(stmt, (ast.Expr, ast.Pass, ast.Import,
